@@ -86,11 +86,14 @@ mod verif {
         kani::cover!(true, "req: reachable");
     }
 
-    // A leading `-` is the prefix operator whatever follows it (variable, literal, parenthesis),
-    // so that `-2 % 3` groups like `-x % 3`.
+    // A leading `-` must group the same whether its operand is a variable, a parenthesis or a literal: `-2 % 3` like `-x % 3`.
+    // The parser reads `-LIT` as one negative literal term (needed for i64::MIN); that is the same grouping as the prefix
+    // operator exactly when the token after the literal is not a binary operator binding tighter than unary minus.
+    // Obligation: parse_prefix_op answers "prefix minus" for every operand kind, unless the operand is a literal that is NOT
+    // followed by a tighter-binding binary operator (tables of parse_binop / precedence, symbolic tokens).
     #[kani::proof]
     #[kani::unwind(4)]
-    fn c31_minus_is_prefix_regardless_of_operand() {
+    fn c31_minus_groups_the_same_for_literals_and_variables() {
         let k: u8 = kani::any();
         kani::assume(k < 4);
         let next = match k {
@@ -99,16 +102,37 @@ mod verif {
             2 => TokenKind::FloatLit(String::new()),
             _ => TokenKind::OpenParen,
         };
-        let mut v = Vec::with_capacity(3);
+        let j: u8 = kani::any();
+        kani::assume(j < 18);
+        let third = match j {
+            0 => TokenKind::Plus, 1 => TokenKind::Minus, 2 => TokenKind::Star, 3 => TokenKind::Slash, 4 => TokenKind::EqEq,
+            5 => TokenKind::NotEq, 6 => TokenKind::Lt, 7 => TokenKind::Le, 8 => TokenKind::Gt, 9 => TokenKind::Ge, 10 => TokenKind::Mod,
+            11 => TokenKind::Caret, 12 => TokenKind::DotDot, 13 => TokenKind::And, 14 => TokenKind::Or, 15 => TokenKind::Eof,
+            16 => TokenKind::CloseParen, _ => TokenKind::Comma,
+        };
+        // what binary operator (if any) the third token denotes, asked of the real parser
+        let mut v3 = Vec::with_capacity(2);
+        v3.push(tok(third.clone(), 0));
+        v3.push(tok(TokenKind::Eof, 1));
+        let mut p3 = mk_parser(v3);
+        let tighter = match p3.parse_binop() { Some(op) => op.precedence() > PrefixOp::Minus.precedence(), None => false };
+        let mut v = Vec::with_capacity(4);
         v.push(tok(TokenKind::Minus, 0));
         v.push(tok(next, 1));
-        v.push(tok(TokenKind::Eof, 2));
+        v.push(tok(third, 2));
+        v.push(tok(TokenKind::Eof, 3));
         let mut p = mk_parser(v);
         let got = p.parse_prefix_op();
-        assert!(matches!(got, Some(PrefixOp::Minus)), "a leading minus is the prefix operator whatever its operand is");
-        kani::cover!(k == 1, "req: integer literal operand");
+        let literal = k == 1 || k == 2;
+        if !literal || tighter {
+            assert!(matches!(got, Some(PrefixOp::Minus)), "a leading minus groups like the prefix operator whatever its operand is");
+        } else {
+            assert!(got.is_none(), "a negative literal term only where nothing binds tighter than unary minus");
+        }
+        kani::cover!(k == 1 && j == 10, "req: integer literal then %");
+        kani::cover!(k == 1 && j == 0, "req: integer literal then +");
         kani::cover!(k == 0, "req: variable operand");
-        std::mem::forget(p);
+        std::mem::forget(p); std::mem::forget(p3);
     }
 
     #[kani::proof]
